@@ -51,7 +51,7 @@ RULE = (
     "entry points) + all outcome combinations listed in the module docstring; non-trivial = some observer/future/caller received "
     "a value, an error or a cancellation (the bridge mechanism ran); distinct = the case descriptor"
 )
-BUDGET = {"quick": 180.0, "thorough": 2400.0}
+BUDGET = {"quick": 300.0, "thorough": 2400.0}
 
 
 class FErr(Exception):
